@@ -8,6 +8,16 @@ def dispatch (op : String) (args : List Sexp) : String :=
   | "codec.dec" => opCodecDec args
   | "sock.recv" => opSockRecv args
   | "seq.hash" => opSeqHash args
+  | "k.plan" => opKPlan args
+  | "k.masks" => opKMasks args
+  | "k.boolwin" => opKBoolWin args
+  | "k.keep" => opKKeep args
+  | "k.typeword" => opKTypeWord args
+  | "k.packmulti" => opKPackMulti args
+  | "k.unpackmulti" => opKUnpackMulti args
+  | "k.writefrags" => opKWriteFrags args
+  | "k.readfrags" => opKReadFrags args
+  | "k.upload" => opKUpload args
   | "client.run" => opClientRun args
   | "encap.build" => opEncapBuild args
   | "ident.decmod" => opIdentDecMod args
